@@ -155,7 +155,7 @@ class Net (object):
     for sp in self.sw:
       try:
         sp.sock.on_send = None
-        sp.sock.close()
+        sp.worker.close()      # (the worker closes its socket in the I/O loop)
         t = getattr(sp.switch, "_expire_timer", None)
         if t is not None: t.cancel()
       except Exception:
@@ -226,7 +226,7 @@ def run_case (case, rep):
     filtered = etype == 0x88cc or (s_dst[:5] == b"\x01\x80\xc2\x00\x00"
                                    and s_dst[5] <= 0x0f)
     known = s_dst in seen[i]
-    if s_dst == s_src and not filtered:
+    if s_dst == s_src and not filtered and not (s_dst[0] & 1):
       # a bridge learns the source first: the destination is then known on
       # the very port the frame came in on, and the frame goes nowhere
       rep.count("frames_to_own_source")
@@ -289,6 +289,11 @@ def run_case (case, rep):
           if gap >= 11: rep.count("timeouts_crossed")
         uid += 1
         src = HOSTS[h]
+        if variant == "groupsrc":
+          # a (bogus) frame whose *source* is a group address: whatever the
+          # bridge makes of it, frames *to* group addresses are still flooded
+          src = BCAST if h % 2 else MCAST
+          variant = "plain"
         if h in host_at and host_at[h] != (at_sw, at_port):
           rep.count("host_moves"); nt = True
         host_at[h] = (at_sw, at_port)
@@ -420,7 +425,7 @@ def gen_random (rng, count, maxlen):
       elif r < 0.85: d = "mcast"
       elif r < 0.92: d = "stp"
       else: d = "lldpdst"
-      variant = rng.choice(["plain", "plain", "ip", "vlan", "lldp"]
+      variant = rng.choice(["plain", "plain", "ip", "vlan", "lldp", "groupsrc"]
                            if rng.random() < 0.25 else ["plain"])
       size = rng.choice([42, 50, 100, 124, 200, 1400])
       gap = rng.choice([0, 0, 0, 0, 5, 11, 31])
